@@ -261,6 +261,27 @@ pub fn frag_slice(cx: &mut Cx, f: &Ipv6FragmentHeaderSlice) {
 
 /// drives the extension iterator to exhaustion (bounded) and three steps beyond;
 /// returns false if the step budget was exceeded
+/// `Iterator::size_hint` brackets the number of items still to come at every point of the
+/// iteration (iterations longer than `budget` are judged by the caller's own budget)
+pub fn size_hint_holds<I: Iterator + Clone>(it: &I, budget: usize) -> bool {
+    let total = it.clone().take(budget + 2).count();
+    if total > budget + 1 {
+        return true;
+    }
+    let mut cur = it.clone();
+    let mut left = total;
+    loop {
+        let (lo, hi) = cur.size_hint();
+        if lo > left || hi.map_or(false, |h| h < left) {
+            return false;
+        }
+        if cur.next().is_none() || left == 0 {
+            return true;
+        }
+        left -= 1;
+    }
+}
+
 pub fn ipv6_exts_slice(cx: &mut Cx, e: &Ipv6ExtensionsSlice) -> bool {
     dbg(e);
     sl(cx, e.slice(), "Ipv6ExtensionsSlice::slice");
@@ -270,6 +291,9 @@ pub fn ipv6_exts_slice(cx: &mut Cx, e: &Ipv6ExtensionsSlice) -> bool {
     let budget = e.slice().len() / 8 + 2;
     let mut it = e.clone().into_iter();
     dbg(&it);
+    if !size_hint_holds(&it, budget) {
+        return false;
+    }
     let mut n = 0;
     loop {
         match it.next() {
@@ -449,6 +473,9 @@ pub fn arp_slice(cx: &mut Cx, a: &ArpPacketSlice) {
 pub fn tcp_options_iter(cx: &mut Cx, mut it: TcpOptionsIterator, area_len: usize) -> bool {
     dbg(&it);
     let budget = area_len + 1;
+    if !size_hint_holds(&it, budget) {
+        return false;
+    }
     let mut n = 0;
     loop {
         sl(cx, it.rest(), "TcpOptionsIterator::rest");
@@ -524,6 +551,9 @@ pub fn icmpv4_slice(cx: &mut Cx, i: &Icmpv4Slice) {
 pub fn ndp_options(cx: &mut Cx, mut it: NdpOptionsIterator, area_len: usize) -> bool {
     dbg(&it);
     let budget = area_len / 8 + 2;
+    if !size_hint_holds(&it, budget) {
+        return false;
+    }
     let mut n = 0;
     loop {
         sl(cx, it.rest(), "NdpOptionsIterator::rest");
